@@ -2,9 +2,15 @@
    Proved: counters are the mathematical sum reduced to the machine width.
    The index arithmetic of arrays (Len/Get over tombstones and dead slots) is
    tied by the rga engine: the model's linear scan [get_index]/[visible] is what
-   the real treelist answers on every generated state.  Text and tree index
-   arithmetic: decided by the reference-model engine c07 (no theorem). *)
-From YV Require Import Crdt.ElemRHT Proofs.ERHTProofs.
+   the real treelist answers on every generated state.
+   Text: on the character-level model (compared with the real crdt.Text by the
+   textrga engine, CreateRange included) a local edit at visible indices [i, j)
+   is exactly a splice of the visible string, wherever tombstones sit; the
+   hypothesis (distinct character ids) is an invariant of every edit.
+   Tree index arithmetic and UTF-16 units: decided by the reference-model
+   engines c07/c07tree (no theorem). *)
+From Coq Require Import List.
+From YV Require Import Crdt.ElemRHT Proofs.ERHTProofs Crdt.TextRGA Proofs.TextProofs Proofs.TextSplice.
 
 Theorem C07_counter_wrap : forall (is_long : bool) c ds,
   let bits := if is_long then 64 else 32 in
@@ -16,3 +22,20 @@ Theorem C07_counter_wrap_examples :
   counter_increase false 2147483647 1 = -2147483648 /\ counter_increase true 9223372036854775807 1 = -9223372036854775808.
 Proof. exact counter_wrap_example. Qed.
 Print Assumptions C07_counter_wrap_examples.
+
+(* text: Edit(i, j, content) on one replica = string splice *)
+Theorem C07_text_local_edit_is_splice : forall l i j vals t,
+  ids_distinct l ->
+  (forall c, In c l -> tafter (c_tk c) t = false) ->
+  (i <= j <= length (visible l))%nat ->
+  exists l', local_edit i j vals t l = Some l' /\
+             visible l' = firstn i (visible l) ++ vals ++ skipn j (visible l).
+Proof. exact local_edit_splices. Qed.
+Print Assumptions C07_text_local_edit_is_splice.
+
+(* its hypothesis is kept by every edit (local or remote) that brings a new ticket *)
+Theorem C07_text_ids_stay_distinct : forall pf pt vals t v l l',
+  ids_distinct l -> (forall c, In c l -> c_tk c <> t) ->
+  edit pf pt vals t v l = Some l' -> ids_distinct l'.
+Proof. exact edit_ids_distinct. Qed.
+Print Assumptions C07_text_ids_stay_distinct.
